@@ -782,6 +782,31 @@ fn iter_protocol<T: PartialEq, I: Iterator<Item = T>>(mk: impl Fn() -> I, items:
     0
 }
 
+/// Evaluate an observation through the borrowed slice and, when the descriptor names a whole register,
+/// also with the owned `Seq` as the method receiver (inherent methods of `Seq` take precedence over the
+/// ones reached through `Deref`); a disagreement is marked so that it cannot equal any model output.
+macro_rules! both_views {
+    ($st:expr, $sd:expr, |$v:ident| $e:expr) => {{
+        let via_slice: String = {
+            let $v = slice_of(&$st.regs, &$sd);
+            $e
+        };
+        if $sd.ranges.is_empty() {
+            let via_owned: String = {
+                let $v = &$st.regs[$sd.reg];
+                $e
+            };
+            if via_owned != via_slice {
+                format!("{} 4294967292", via_owned)
+            } else {
+                via_owned
+            }
+        } else {
+            via_slice
+        }
+    }};
+}
+
 fn arr_words<const W: usize>(cs: &[usize], bits: usize) -> [usize; W] {
     let mut ws = [0usize; W];
     for (i, c) in cs.iter().enumerate() {
@@ -1098,9 +1123,8 @@ where
         // ---------------- observers
         "len" => {
             let sd = t.sd();
-            let s = slice_of(&st.regs, &sd);
-            st.out
-                .push(format!("{} {}", s.len(), s.is_empty() as u8));
+            let o = both_views!(st, sd, |s| format!("{} {}", s.len(), s.is_empty() as u8));
+            st.out.push(o);
         }
         "display" => {
             let sd = t.sd();
@@ -1139,7 +1163,13 @@ where
                 let w: Vec<String> = (&st.regs[sd.reg]).into_iter().map(|x| x.to_bits().to_string()).collect();
                 assert!(w[..] == v[1..], "IntoIterator for &Seq disagrees with SeqSlice::iter");
             }
-            st.out.push(v.join(" "));
+            let o = both_views!(st, sd, |s| {
+                let mut o = vec![s.len().to_string()];
+                o.extend(s.iter().map(|x| x.to_bits().to_string()));
+                o.join(" ")
+            });
+            assert!(o.ends_with("4294967292") || o == v.join(" "), "iter() disagrees with itself");
+            st.out.push(o);
         }
         "reviter" => {
             let sd = t.sd();
@@ -1150,27 +1180,27 @@ where
                 st.out.push(format!("4294967293 {bad}"));
                 return;
             }
-            st.out.push(
-                items
-                    .iter()
-                    .map(|x| x.to_bits().to_string())
-                    .collect::<Vec<_>>()
-                    .join(" "),
-            );
+            let o = both_views!(st, sd, |s| s
+                .rev_iter()
+                .map(|x| x.to_bits().to_string())
+                .collect::<Vec<_>>()
+                .join(" "));
+            st.out.push(o);
         }
         "nth" => {
             let sd = t.sd();
             let i = t.num();
-            st.out
-                .push(slice_of(&st.regs, &sd).nth(i).to_bits().to_string());
+            let o = both_views!(st, sd, |s| s.nth(i).to_bits().to_string());
+            st.out.push(o);
         }
         "get" => {
             let sd = t.sd();
             let i = t.num();
-            match slice_of(&st.regs, &sd).get(i) {
-                Some(x) => st.out.push(format!("1 {}", x.to_bits())),
-                None => st.out.push("0".into()),
-            }
+            let o = both_views!(st, sd, |s| match s.get(i) {
+                Some(x) => format!("1 {}", x.to_bits()),
+                None => "0".to_string(),
+            });
+            st.out.push(o);
         }
         "windows" | "chunks" => {
             let sd = t.sd();
@@ -1195,7 +1225,16 @@ where
             for it in items {
                 o.extend(lencodes(it));
             }
-            st.out.push(o.join(" "));
+            let direct = both_views!(st, sd, |s| {
+                let its: Vec<&SeqSlice<A>> = if name == "windows" { s.windows(w).collect() } else { s.chunks(w).collect() };
+                let mut o = vec![its.len().to_string()];
+                for it in its {
+                    o.extend(lencodes(it));
+                }
+                o.join(" ")
+            });
+            assert!(direct.ends_with("4294967292") || direct == o.join(" "), "windows/chunks disagree with themselves");
+            st.out.push(direct);
         }
         "winvec" => {
             // FromIterator<&SeqSlice> for Vec<Seq>
